@@ -39,9 +39,6 @@ UBSAN_MEMORY = re.compile(r"misaligned address|null pointer of type|within null 
 IGNORED_KINDS = ("gcstat",)
 
 
-_T0 = time.time()
-
-
 def _budget(driver, tier):
     a = sys.argv
     if "--budget" in a:
@@ -150,12 +147,12 @@ class C01(Driver):
     prop = "C01"
     level = "exploration"
     flavours = ["asan", "plain"]
-    timeout_ms = 120000
+    timeout_ms = 60000
     budgets = {"quick": 90, "thorough": 1200}
-    rule = ("plan = one generated program (3-7 units: targeted heap-edge scenarios parameterised by the seed + random "
+    rule = ("plan = one generated program (2-6 units: targeted heap-edge scenarios parameterised by the seed + random "
             "typed programs over the core language) x collector schedules {never (reference), every safepoint, "
-            "Bernoulli 0.5/0.1/0.02, burst window} in the asan+JANET_DEBUG flavour + {never, every} in the plain "
-            "flavour; a plan is non-trivial when at least one forced collection happened and the reference transcript "
+            "Bernoulli 0.5/0.1/0.02, burst window} in the asan+JANET_DEBUG flavour + never (every plan) and every (a third of the plans) in the "
+            "plain flavour; a plan is non-trivial when at least one forced collection happened and the reference transcript "
             "has events; distinct = distinct sha256(plan)")
     assumptions = [
         "generated programs do not observe the collector: no weak containers, no gccollect/gcinterval/statistics, "
@@ -177,7 +174,7 @@ class C01(Driver):
         extra = [x for x in os.environ.get("C01_EXTRA", "").split(",") if x in c01_scen.OPTIONAL]
         only = [x for x in os.environ.get("C01_ONLY", "").split(",") if x]
         units = []
-        nunits = r.randint(3, 7)
+        nunits = r.randint(2, 6)
         w_random = r.choice([0.2, 0.35, 0.5])
         for i in range(nunits):
             if only:
@@ -193,8 +190,10 @@ class C01(Driver):
         lo = r.choice([0, 0, 3, 10, 40, 120])
         burst = [lo, lo + r.choice([1, 2, 5, 20, 80])]
         knobs = {"seed": seed, "pipe_size": 4096, "clock_phase_ns": r.choice([0, 0, 137000]), "max_yields": 400000}
-        return {"property": "C01", "knobs": knobs, "units": units, "burst": burst,
-                "schedules": [list(s) for s in ALL_SCHEDULES]}
+        # the plain flavour (no stack relocation, no quarantine: freed memory is really reused) always
+        # runs `never` as the anchor; a third of the plans also run it under `every`
+        scheds = [list(s) for s in ALL_SCHEDULES if s != ["plain", "every"] or r.random() < 0.34]
+        return {"property": "C01", "knobs": knobs, "units": units, "burst": burst, "schedules": scheds}
 
     # ---- budget ----
     # common.check_main stops *feeding* seeds at the deadline, but the pool's feeder thread has
@@ -202,8 +201,12 @@ class C01(Driver):
     # driver whose runs take milliseconds and ten minutes for this one (a plan = 8 simulated
     # runs).  Seeds that reach a worker after the deadline are therefore not explored; they
     # are reported with outcome "not-run-after-budget" and count for nothing.
+    def __init__(self):
+        # in a pool worker this is the start of the exploration (the pool is created after the builds)
+        self._t0 = time.time()
+
     def run_seed(self, seed, tier):
-        if time.time() > _T0 + _budget(self, tier) + 1.0 and not os.environ.get("C01_NO_DEADLINE"):
+        if time.time() > self._t0 + _budget(self, tier) and not os.environ.get("C01_NO_DEADLINE"):
             return {"seed": seed, "cov": "skipped", "nontrivial": False, "outcome": "not-run-after-budget",
                     "faults": {}, "probes": {}, "sim_ns": 0, "sw": "", "hist": "skipped", "violations": [],
                     "wall_us": 0, "extra": None}
@@ -217,7 +220,7 @@ class C01(Driver):
         if hitlog and out["violations"]:
             try:    # first hit only (measures time to first detection in sensitivity runs)
                 fd = os.open(hitlog, os.O_WRONLY | os.O_CREAT | os.O_EXCL, 0o644)
-                os.write(fd, ("%.1f s after start: seed %d %s\n" % (time.time() - _T0, seed, out["violations"][0][0])).encode())
+                os.write(fd, ("%.1f s after start: seed %d %s\n" % (time.time() - self._t0, seed, out["violations"][0][0])).encode())
                 os.close(fd)
             except FileExistsError:
                 pass
@@ -303,6 +306,13 @@ class C01(Driver):
         results = []
         for s in scheds:
             results.append(runner(s[0]).run(self.request(plan, s), self.timeout_ms))
+            if len(results) == 1 and results[0].outcome == "timeout":
+                # the reference itself does not finish: a generator accident (programs must
+                # terminate), nothing to compare - no verdict
+                self._info = {"runs": {sched_name(s): 1}, "forced": 0, "units": {}, "events": 0, "spill": 0, "symrec": 0,
+                              "errs": 0, "ref_timeout": 1}
+                self._hits = []
+                return results[0], []
         ref = results[0]
         vs = []
         seen = set()
@@ -407,6 +417,7 @@ class C01(Driver):
             p["mark_depth_spill"] += x["spill"]
             p["symbol_recycled"] += x["symrec"]
             p["units_raising_an_error"] += x["errs"]
+            p["reference_run_timed_out"] = p.get("reference_run_timed_out", 0) + x.get("ref_timeout", 0)
             p["violations_beyond_signature_cap"] = p.get("violations_beyond_signature_cap", 0) + x.get("capped", 0)
             p["runs_ended_by_non_memory_ubsan_report"] = p.get("runs_ended_by_non_memory_ubsan_report", 0) + x.get("ubsan_other", 0)
             p["transcript_events"] += x["events"]
